@@ -39,3 +39,42 @@ def replay_containers(pid, path):
 
 for _p in ("C08", "C14", "C18"):
     register(_p, run_containers, replay_containers)
+
+
+# ---------------------------------------------------------------- generated models (explorer)
+import modelgen
+
+MODEL_ASSUME_COMMON = [
+    "programs range over the curated corpus /verif/corpus/k (one or more theories per compiler feature), inputs over histories up to the reported depth from preludes of 1-2 elements per type",
+    "the reference semantics (naive evaluation of the source rules by /verif/engine/models/src/refsem.rs on the AST of /verif/lib/eqlparse.py) is the oracle; it is anchored on the repository's own test expectations",
+    "theories with model declarations are explored under C17 only (same oracles plus inheritance)",
+]
+MODEL_ASSUME = {
+    "C02": ["histories whose reference chase exceeds the element/round cap are counted as inconclusive, never reported"],
+    "C03": ["histories are grouped by their set of assertions modulo the order of new_ calls of one type"],
+    "C06": ["the iteration bound 16*ids*(sum of ids^arity + 2) exceeds what a correct surjective closure can need"],
+    "C07": ["conditions range over ground atoms on the caller's elements, true/false and stop-at-k-th-evaluation"],
+    "C17": ["only histories whose free model has an acyclic morphism graph are explored (cycles are rejected by design)",
+            "member predicates / functions over global types; member types and @ are outside the reference fragment"],
+}
+
+
+def run_models(pid, tier, seed):
+    t0 = time.time()
+    binary, infos = modelgen.build_models("k", modelgen.load_corpus("k"))
+    bad = [i for i in infos if not i["ok"]]
+    if bad:
+        raise common.MachineryError("corpus theories failed to build: " + "; ".join(f"{i['name']}: {i.get('error','')[:300]}" for i in bad[:5]))
+    res = common.run_engine(binary, [pid, "--tier", tier], timeout=6 * 3600)
+    viol = res.get("violations", [])
+    return common.finish(pid, tier, "model_checking", res, viol, t0, MODEL_ASSUME_COMMON + MODEL_ASSUME.get(pid, []), seed)
+
+
+def replay_models(pid, path):
+    binary, _ = modelgen.build_models("k", modelgen.load_corpus("k"))
+    p = subprocess.run([binary, pid, "--replay", path], env=common.env_offline())
+    return p.returncode
+
+
+for _p in ("C01", "C02", "C03", "C04", "C05", "C06", "C07", "C15", "C17"):
+    register(_p, run_models, replay_models)
